@@ -296,7 +296,11 @@ func registerLife(prop, title string) {
 				jobs = append(jobs, mc.Job{Name: "C01-nil-output", Run: c01NilOutput})
 				jobs = append(jobs, twoProvJob(prop, depth4(tier)))
 			}
-			for _, np := range []int{1, 2} {
+			nps := []int{1, 2}
+			if tier == "thorough" {
+				nps = append(nps, 3)
+			}
+			for _, np := range nps {
 				np := np
 				jobs = append(jobs, mc.Job{Name: fmt.Sprintf("%s-forms-%d", prop, np), Weight: 5, Run: func(r *mc.Report) { lifeForms(r, prop, np) }})
 			}
